@@ -67,9 +67,18 @@ def run_gen():
 def coq_files():
     """_CoqProject order: every .v under coq/theories (topologically sorted by coq_makefile itself)."""
     files = []
+    # proof files that are not yet committed (work in progress, possibly looping) are
+    # not part of the development: leave them out of the build
+    wip = set()
+    try:
+        out = subprocess.run(["git", "-C", VERIF, "ls-files", "--others", "--exclude-standard", "--", "coq/theories"],
+                             stdout=subprocess.PIPE, stderr=subprocess.DEVNULL, timeout=30).stdout.decode()
+        wip = set(os.path.normpath(os.path.join(VERIF, l)) for l in out.splitlines() if l.endswith(".v"))
+    except Exception:
+        pass
     for root, _, fns in os.walk(COQ + "/theories"):
         for fn in sorted(fns):
-            if fn.endswith(".v"):
+            if fn.endswith(".v") and os.path.normpath(os.path.join(root, fn)) not in wip:
                 files.append(os.path.relpath(os.path.join(root, fn), COQ))
     for root, _, fns in os.walk(COQ + "/gen"):
         for fn in sorted(fns):
